@@ -572,6 +572,9 @@ fn def_template(c1: &E, c2: &E, cplace: usize, base: usize) -> Vec<Item> {
         Item::Sub("a".into(), "b".into(), int(0)),
         label("lab"),
         Item::Func("fun".into()),
+        // an integer constant that is emitted as data: a define must reach the data as well as the conditions
+        konst("N", int(3)),
+        Item::Use("N".into()),
         Item::Marker(0x80),
         Item::If(vec![(c1.clone(), arm1), (c2.clone(), arm2)], Some(arm3)),
     ];
@@ -596,6 +599,7 @@ fn def_extras() -> Vec<Option<(&'static str, DV)>> {
         Some(("lab", DV::Int(7))),
         Some(("LIVE1", DV::Int(6))),
         Some(("fun", DV::Int(5))),
+        Some(("N", DV::Int(9))),
     ]
 }
 
@@ -832,7 +836,7 @@ fn drive_cases(thorough: bool) -> Vec<DriveCase> {
     let mut out = vec![];
     let c1s = def_c1();
     let c2s = def_c2(false);
-    let extras = [None, Some(("lab", DV::Int(7))), Some(("Q", DV::Int(1))), Some(("a.b", DV::Int(1))), Some(("DEADK", DV::NoValue)), Some(("LIVE1", DV::Hex10)), Some(("fun", DV::Int(5)))];
+    let extras = [None, Some(("lab", DV::Int(7))), Some(("Q", DV::Int(1))), Some(("a.b", DV::Int(1))), Some(("DEADK", DV::NoValue)), Some(("LIVE1", DV::Hex10)), Some(("fun", DV::Int(5))), Some(("N", DV::Int(9)))];
     let bopts: Vec<Option<DV>> = if thorough { std::iter::once(None).chain(DVALS.iter().map(|d| Some(*d))).collect() } else { vec![None, Some(DV::Int(1)), Some(DV::Bool(true))] };
     for (i1, c1) in c1s.iter().enumerate() {
         for (i2, c2) in c2s.iter().enumerate().take(if thorough { 4 } else { 2 }) {
@@ -942,7 +946,7 @@ pub fn run(ctx: &Ctx) -> Report {
         json!({
             "tree": format!("every chain shape of depth <= {} (if / if-else / if-elif / if-elif-else, at most one nested chain per chain; {} shapes) x every assignment of condition forms (6 boolean forms or 4 integer forms over A,B,C; 3 forms when a shape has > 4 conditions) x every valuation of A,B,C (bool^3 / {{0,1,-1}}^3) x constants before the tree / after it / after it with A behind a reverse-ordered alias chain; every arm holds a marker and a label", if ctx.thorough { 3 } else { 2 }, shapes(if ctx.thorough { 3 } else { 2 }).len()),
             "feed": "A decides which X is declared, X decides which Y is declared, Y decides a third chain: every X/Y value assignment x else-arm present/absent x 4 chain kinds x all 6 textual orders of the three chains + 4 nested layouts x A before/after x use of X / Y / nothing from live code",
-            "def": format!("template with 5 first conditions x {} second conditions x C declared at top / in arm 1,2,3 / nowhere x {} base valuations of (A,B) [(true,false), (0,1), thorough: (false,1)], x every assignment of {{absent, no value, true, false, 0, 1, -1, 0x10}} to A, B, C (512) x 9 extra defines (none, a.b=1, a.b, a (label with children), Q (undeclared), DEADK (dead arm only), lab (label), LIVE1 (declared in arm 1), fun (a #fn function))", def_c2(ctx.thorough).len(), if ctx.thorough { 3 } else { 2 }),
+            "def": format!("template with 5 first conditions x {} second conditions x C declared at top / in arm 1,2,3 / nowhere x {} base valuations of (A,B) [(true,false), (0,1), thorough: (false,1)], x every assignment of {{absent, no value, true, false, 0, 1, -1, 0x10}} to A, B, C (512) x 10 extra defines (N (an integer constant that is also emitted), none, a.b=1, a.b, a (label with children), Q (undeclared), DEADK (dead arm only), lab (label), LIVE1 (declared in arm 1), fun (a #fn function))", def_c2(ctx.thorough).len(), if ctx.thorough { 3 } else { 2 }),
             "ref": "every chain shape x every truth assignment of its conditions (constants T / F) x every arm's label and constant mentioned from live code (#d8 name, or R = name) before / after the tree",
             "edge": "19 undecidable / non-boolean / control conditions x 6 chain positions (first, elif after false, elif after true, nested in live arm, nested in dead arm, nested in else) x prelude before/after x chain first / last / both / neither item of the file; dead-arm name x top-level twin (constant/label/none) x define x use; hierarchical p.q declared in a live / dead arm x define x dependent chain before / after",
             "drive": "def template sub-grid through driver::drive, spellings -dN=V / --define=N=V / --define N=V / defines in the first of two output groups, output compared via -f hexstr -o out.txt",
